@@ -30,7 +30,9 @@ CONSTANTS MaxLeaves,       \* leaves per composite
           Directions,      \* subset of {"do","undo"}
           AllowFault,      \* BOOLEAN: one fs command may raise
           AllowStop,       \* BOOLEAN: the task handle may be stopped
-          AllowNatural     \* BOOLEAN: a leaf may fail on its own (missing file..)
+          AllowNatural,    \* BOOLEAN: a leaf may fail on its own (missing file..)
+          AllowPreEdit     \* BOOLEAN: between building/previewing the change and performing it, a file
+                           \* may be edited (the call must restore the contents of just before the call)
 
 VARIABLES tree,      \* current project tree
           init,      \* tree before anything (for rendering)
@@ -49,10 +51,12 @@ VARIABLES tree,      \* current project tree
           result,    \* "none" | "ok" | "error" | "rberror"
           hist,      \* <<len(undo_list), len(redo_list)>>
           hist0,
+          pre,       \* path edited behind rope's back after the change object was built and previewed
+                     \* (<< >>: none, <<"-">>: not decided yet)
           ops        \* Seq of fs commands issued by the call under test
 
 vars == <<tree, init, snap0, cs, olds, dir, phase, i, done, rb, stopped,
-          stopAt, faultAt, cause, result, hist, hist0, ops>>
+          stopAt, faultAt, cause, result, hist, hist0, pre, ops>>
 
 FsCmd(name, p, q) == [op |-> name, p |-> p, q |-> q]
 
@@ -92,6 +96,7 @@ Init ==
   /\ result = "none"
   /\ hist = IF dir = "do" THEN <<1, 1>> ELSE <<2, 0>>
   /\ hist0 = hist
+  /\ pre = IF dir = "do" /\ AllowPreEdit THEN <<"-">> ELSE << >>
   /\ ops = << >>
 
 (***************************************************************************)
@@ -106,7 +111,7 @@ BuildLeaf(l) ==
   /\ olds' = Append(olds, IF l.k = "W" THEN tree[l.p] ELSE 0)
   /\ tree' = LeafApply(tree, l)
   /\ UNCHANGED <<init, snap0, dir, phase, i, done, rb, stopped, stopAt, faultAt,
-                 cause, result, hist, hist0, ops>>
+                 cause, result, hist, hist0, pre, ops>>
 
 BeginUndo ==
   /\ phase = "build"
@@ -115,7 +120,24 @@ BeginUndo ==
   /\ i' = Len(cs)
   /\ phase' = "start"
   /\ UNCHANGED <<tree, init, cs, olds, dir, done, rb, stopped, stopAt, faultAt,
-                 cause, result, hist, hist0, ops>>
+                 cause, result, hist, hist0, pre, ops>>
+
+PreContent == 3
+\* after the ChangeSet object exists (and its description was computed) a file gets new contents;
+\* the call under test starts from that tree
+PreEdit(p) ==
+  /\ phase = "choose" /\ pre = <<"-">> /\ cs = << >>
+  /\ IsFilePath(p) /\ IsFile(tree, p)
+  /\ tree' = [tree EXCEPT ![p] = PreContent]
+  /\ snap0' = tree'
+  /\ pre' = p
+  /\ UNCHANGED <<init, cs, olds, dir, phase, i, done, rb, stopped, stopAt, faultAt, cause, result,
+                 hist, hist0, ops>>
+NoPreEdit ==
+  /\ phase = "choose" /\ pre = <<"-">> /\ cs = << >>
+  /\ pre' = << >>
+  /\ UNCHANGED <<tree, init, snap0, cs, olds, dir, phase, i, done, rb, stopped, stopAt, faultAt, cause,
+                 result, hist, hist0, ops>>
 
 (***************************************************************************)
 (* do direction: the next leaf of the composite is chosen when its turn    *)
@@ -123,6 +145,7 @@ BeginUndo ==
 (***************************************************************************)
 ChooseLeaf(l) ==
   /\ phase = "choose"
+  /\ pre # <<"-">>
   /\ Len(cs) < MaxLeaves
   /\ LeafLegal(tree, l)
   /\ IF AllowNatural THEN TRUE ELSE LeafEnabled(tree, l)
@@ -131,7 +154,7 @@ ChooseLeaf(l) ==
   /\ i' = Len(cs) + 1
   /\ phase' = "start"
   /\ UNCHANGED <<tree, init, snap0, dir, done, rb, stopped, stopAt, faultAt,
-                 cause, result, hist, hist0, ops>>
+                 cause, result, hist, hist0, pre, ops>>
 
 \* all leaves performed: ChangeSet.do returns, History.do records the change
 EndOkDo ==
@@ -141,7 +164,7 @@ EndOkDo ==
   /\ result' = "ok"
   /\ hist' = <<hist[1] + 1, 0>>
   /\ UNCHANGED <<tree, init, snap0, cs, olds, dir, i, done, rb, stopped, stopAt,
-                 faultAt, cause, hist0, ops>>
+                 faultAt, cause, hist0, pre, ops>>
 
 (***************************************************************************)
 (* The task handle is stopped by another thread / an observer.  Only the   *)
@@ -155,7 +178,7 @@ Stop ==
   /\ stopped' = TRUE
   /\ stopAt' = <<phase, i>>
   /\ UNCHANGED <<tree, init, snap0, cs, olds, dir, phase, i, done, rb, faultAt,
-                 cause, result, hist, hist0, ops>>
+                 cause, result, hist, hist0, pre, ops>>
 
 \* something raised inside the loop of ChangeSet.do / ChangeSet.undo
 Raise(c) ==
@@ -170,7 +193,7 @@ JobStart ==
        THEN Raise("stop") /\ UNCHANGED <<tree, olds, ops>>
        ELSE phase' = "op" /\ UNCHANGED <<tree, olds, ops, cause, rb>>
   /\ UNCHANGED <<init, snap0, cs, dir, i, done, stopped, stopAt, faultAt, result,
-                 hist, hist0>>
+                 hist, hist0, pre>>
 
 \* what performing the current leaf means in this direction
 CurEnabled == IF dir = "do" THEN LeafEnabled(tree, cs[i])
@@ -188,7 +211,7 @@ FsOp ==
   /\ ops' = Append(ops, CurCmd)
   /\ phase' = "finish"
   /\ UNCHANGED <<init, snap0, cs, dir, i, done, rb, stopped, stopAt, faultAt, cause,
-                 result, hist, hist0>>
+                 result, hist, hist0, pre>>
 
 \* the fs command raises OSError before touching anything (injected fault)
 FsFail ==
@@ -199,7 +222,7 @@ FsFail ==
   /\ faultAt' = i
   /\ Raise("fault")
   /\ UNCHANGED <<tree, init, snap0, cs, olds, dir, i, done, stopped, stopAt, result,
-                 hist, hist0, ops>>
+                 hist, hist0, pre, ops>>
 
 \* the leaf cannot be performed in this tree: rope or the OS raises, no effect
 FsNatural ==
@@ -207,7 +230,7 @@ FsNatural ==
   /\ ~CurEnabled
   /\ Raise(IF dir = "undo" /\ ~HasInverse(cs[i]) THEN "notimpl" ELSE "natural")
   /\ UNCHANGED <<tree, init, snap0, cs, olds, dir, i, done, stopped, stopAt, faultAt,
-                 result, hist, hist0, ops>>
+                 result, hist, hist0, pre, ops>>
 
 \* the inverse of what FsOp just did, used by SelfRevert
 RevertEnabled == IF dir = "do" THEN HasInverse(cs[i]) /\ InverseEnabled(tree, cs[i], olds[i])
@@ -231,7 +254,7 @@ FinishOk ==
                    /\ phase' = "end" /\ i' = 0 /\ result' = "ok"
                    /\ hist' = <<hist[1] - 1, hist[2] + 1>>
   /\ UNCHANGED <<tree, init, snap0, cs, olds, dir, rb, stopped, stopAt, faultAt,
-                 cause, hist0, ops>>
+                 cause, hist0, pre, ops>>
 
 \* finished_job raises; pinned rope: the applied leaf is neither recorded nor reverted
 FinishStopPlain ==
@@ -240,7 +263,7 @@ FinishStopPlain ==
   /\ ~SelfRevert
   /\ Raise("stop")
   /\ UNCHANGED <<tree, init, snap0, cs, olds, dir, i, done, stopped, stopAt, faultAt,
-                 result, hist, hist0, ops>>
+                 result, hist, hist0, pre, ops>>
 
 \* finished_job raises; repaired rope: the leaf reverts itself, then re-raises
 FinishStopRevert ==
@@ -252,7 +275,7 @@ FinishStopRevert ==
   /\ ops' = Append(ops, RevertCmd)
   /\ Raise("stop")
   /\ UNCHANGED <<init, snap0, cs, olds, dir, i, done, stopped, stopAt, faultAt,
-                 result, hist, hist0>>
+                 result, hist, hist0, pre>>
 
 \* ... but the revert itself raises (RemoveResource.undo): that exception reaches
 \* the ChangeSet's handler, which rolls back `done` with the leaf still applied
@@ -263,7 +286,7 @@ FinishStopRevertFails ==
   /\ ~RevertEnabled
   /\ Raise("notimpl")
   /\ UNCHANGED <<tree, init, snap0, cs, olds, dir, i, done, stopped, stopAt,
-                 faultAt, result, hist, hist0, ops>>
+                 faultAt, result, hist, hist0, pre, ops>>
 
 \* the except-branch loop: re-invert every recorded leaf (default job set:
 \* no interruption checks, and the single fault is already spent)
@@ -287,11 +310,13 @@ RollbackStep ==
                       /\ result' = "rberror"
                       /\ UNCHANGED <<tree, rb, ops>>
   /\ UNCHANGED <<init, snap0, cs, olds, dir, i, done, stopped, stopAt, faultAt, cause,
-                 hist, hist0>>
+                 hist, hist0, pre>>
 
 Next ==
   \/ \E l \in AllLeaves : BuildLeaf(l)
   \/ BeginUndo
+  \/ \E p \in FilePaths : PreEdit(p)
+  \/ NoPreEdit
   \/ \E l \in AllLeaves : ChooseLeaf(l)
   \/ EndOkDo
   \/ Stop
